@@ -582,6 +582,117 @@ theorem status_passed_stable {p : Tally} (h : Premise p) {b b' : Block} (hl : la
       simp only [Bool.false_eq_true, if_false] at hs
       split at hs <;> cases hs
 
+/-! ## 6b. Completeness of the early Passed, stability of Rejected -/
+
+/-- Converse of `passed_sound`: before expiry, if every completion of the outstanding votes passes
+as a final tally, the library already reports Passed (two completions suffice: nobody else votes,
+and everybody else votes No). -/
+theorem passed_complete {p : Tally} (h : Premise p) {blk : Block} (hne : p.expires.isExpired blk = false)
+    (hall : ∀ c : Votes, cast (plus p.votes c) ≤ p.totalWeight →
+      libPasses p.threshold p.totalWeight (plus p.votes c) = true) :
+    isPassed p blk = .ok true := by
+  rw [isPassed_eq h blk, hne]
+  apply congrArg
+  have h0 := hall noVotes (by rw [plus_noVotes]; exact h.tally_le)
+  rw [plus_noVotes] at h0
+  have hc := h.tally_le
+  have h1 := hall ⟨0, p.totalWeight - cast p.votes, 0, 0⟩ (by simp only [cast] at hc ⊢; omega)
+  generalize p.threshold = thr at *
+  generalize p.totalWeight = total at *
+  generalize p.votes = v at *
+  obtain ⟨y, n, ab, ve⟩ := v
+  simp only [cast] at hc
+  cases thr with
+  | absoluteCount k => exact h0
+  | absolutePercentage a => exact h0
+  | thresholdQuorum t q =>
+    have e : y + 0 + (n + (total - (y + n + ab + ve))) + (ab + 0) + (ve + 0) - (ab + 0) = total - ab := by omega
+    simp only [libPasses, libPassesAt, cast] at h0 h1 ⊢
+    simp only [Bool.and_eq_true, decide_eq_true_eq, Bool.false_eq_true, if_false, if_true] at h0 h1 ⊢
+    rw [e] at h1
+    exact ⟨h0.1, h0.2.1, by omega⟩
+
+/-- `is_rejected` before expiry is stable under further votes -/
+theorem libRejectsAt_open_mono {thr : Threshold} {total : Nat} {v : Votes}
+    (hv : thr.validate total = .ok ()) (hu : total ≤ U64_MAX)
+    (hr : libRejectsAt thr total v false = true) (c : Votes) (hc : cast (plus v c) ≤ total) :
+    libRejectsAt thr total (plus v c) false = true := by
+  obtain ⟨y, n, ab, ve⟩ := v
+  obtain ⟨cy, cn, cab, cve⟩ := c
+  simp only [cast] at hc
+  cases thr with
+  | absoluteCount k =>
+    simp only [libRejectsAt] at hr ⊢
+    simp only [decide_eq_true_eq] at hr ⊢; omega
+  | absolutePercentage a =>
+    have hm := vn_mono (w := total - (ab + cab)) (w' := total - ab) (a := DEC_ONE - a)
+      (Nat.sub_le _ _) (by omega) (by omega)
+    simp only [libRejectsAt] at hr ⊢
+    simp only [decide_eq_true_eq] at hr ⊢; omega
+  | thresholdQuorum t q =>
+    have hm := vn_mono (w := total - (ab + cab)) (w' := total - ab) (a := DEC_ONE - t)
+      (Nat.sub_le _ _) (by omega) (by omega)
+    simp only [libRejectsAt] at hr ⊢
+    simp only [decide_eq_true_eq, Bool.false_eq_true, if_false] at hr ⊢; omega
+
+/-- Once Rejected, always Rejected: if an Open-stored proposal is reported Rejected at block `b`
+(voted down early, or expired without passing), it is reported Rejected at every later block `b'`,
+also after further votes `c` (none if it had already expired at `b`). -/
+theorem rejected_stable {p : Tally} (h : Premise p) {b b' : Block} (hl : later b b')
+    (hs : currentStatus p b = .ok .rejected) (c : Votes) (hc : cast (plus p.votes c) ≤ p.totalWeight)
+    (hvote : p.expires.isExpired b = true → c = noVotes) :
+    currentStatus { p with votes := plus p.votes c } b' = .ok .rejected := by
+  have h' : Premise { p with votes := plus p.votes c } := ⟨hc, h.total_u64, h.valid⟩
+  unfold currentStatus at hs ⊢
+  by_cases hst : p.status ≠ .open
+  · rw [if_pos hst] at hs; rw [if_pos hst]; exact hs
+  · rw [if_neg hst] at hs; rw [if_neg hst]
+    rw [isPassed_eq h b, ok_bind] at hs
+    rw [isPassed_eq h' b', ok_bind]
+    cases hpb : libPassesAt p.threshold p.totalWeight p.votes (p.expires.isExpired b) with
+    | true => rw [hpb] at hs; cases hs
+    | false =>
+      rw [hpb] at hs
+      simp only [Bool.false_eq_true, if_false] at hs
+      rw [isRejected_eq h b, ok_bind] at hs
+      rw [isRejected_eq h' b']
+      show (if libPassesAt p.threshold p.totalWeight (plus p.votes c) (p.expires.isExpired b') = true then _ else _) = _
+      cases he : p.expires.isExpired b with
+      | true =>
+        -- already expired at b: no further votes, still expired, same decision
+        have he' := expired_mono hl he
+        rw [hvote he, plus_noVotes, he']
+        rw [he] at hpb
+        rw [hpb]
+        simp only [Bool.false_eq_true, if_false, ok_bind, Bool.or_true, if_true]
+        rfl
+      | false =>
+        rw [he] at hs hpb
+        have hrej : libRejectsAt p.threshold p.totalWeight p.votes false = true := by
+          cases hr : libRejectsAt p.threshold p.totalWeight p.votes false with
+          | true => rfl
+          | false => rw [hr] at hs; simp only [Bool.or_self, Bool.false_eq_true, if_false] at hs; cases hs
+        cases he' : p.expires.isExpired b' with
+        | true =>
+          have := libRejectsAt_open_completion h.valid h.total_u64 hrej c hc
+          unfold libPasses at this
+          rw [this]
+          simp only [Bool.false_eq_true, if_false, ok_bind, Bool.or_true, if_true]
+          rfl
+        | false =>
+          have hr' := libRejectsAt_open_mono h.valid h.total_u64 hrej c hc
+          have hnb := not_both h' b'
+          rw [isPassed_eq h' b', isRejected_eq h' b'] at hnb
+          have e1 : ({ p with votes := plus p.votes c } : Tally).expires.isExpired b' = false := he'
+          rw [e1] at hnb
+          show (if libPassesAt p.threshold p.totalWeight (plus p.votes c) false = true then _ else _) = _
+          cases hp' : libPassesAt p.threshold p.totalWeight (plus p.votes c) false with
+          | true => exact absurd ⟨congrArg _ hp', congrArg _ hr'⟩ hnb
+          | false =>
+            simp only [Bool.false_eq_true, if_false, ok_bind]
+            rw [hr']
+            rfl
+
 /-! ## 7. The excluded region -/
 
 /-- Outside the premise: an `AbsoluteCount` weight above the total (rejected by
